@@ -2,6 +2,7 @@ package main
 
 import (
 	"fmt"
+	"sync/atomic"
 	"time"
 
 	"verif/vlib"
@@ -16,16 +17,29 @@ var timedTs = []int{0, 5, 20, 60}
 // timing is asserted there. With a late producer either outcome is allowed, each with its own
 // condition.
 func timedCase(c *vlib.Ctx, kind int, i int, r *vlib.Rand) {
+	section := "timed-" + []string{"rq", "dq"}[kind]
+	if skipAbandoned(c, section, i) {
+		return
+	}
+	caseID := fmt.Sprintf("%s#%d", section, i)
 	for _, t := range timedTs {
 		caps := [2]int{[]int{0, 1, 2, 5}[r.Intn(4)], []int{0, 1, 2, 5}[r.Intn(4)]}
 		q := newQ(kind, caps)
 		T := q.name()
-		variant := []string{"empty", "empty", "non-empty", "late-producer"}[r.Intn(4)]
+		installGuard(q, 64)
+		// "after-clear": filled, cleared while non-empty, then one element put: it must come out
+		variant := []string{"empty", "empty", "non-empty", "late-producer", "after-clear"}[r.Intn(5)]
 		lane := r.Intn(q.lanes())
 		id := mkID(lane, 0, 1+r.Intn(1000))
 		var prodDone chan struct{}
 		switch variant {
 		case "non-empty":
+			q.put(lane, id)
+		case "after-clear":
+			for k := r.Range(1, 3); k > 0; k-- {
+				q.put(r.Intn(q.lanes()), mkID(0, 1, 5000+k))
+			}
+			q.clear()
 			q.put(lane, id)
 		case "late-producer":
 			prodDone = make(chan struct{})
@@ -40,13 +54,25 @@ func timedCase(c *vlib.Ctx, kind int, i int, r *vlib.Rand) {
 		// the verdict would hinge on the agreement of two different clocks to a few microseconds
 		for time.Now().UnixNano()%1e6 > 9e5 {
 		}
-		t0 := time.Now()
-		v := q.getTimeout(t)
-		el := time.Since(t0)
+		var v interface{}
+		var el time.Duration
+		o := guardCall(curWatchdog(), func() {
+			t0 := time.Now()
+			v = q.getTimeout(t)
+			el = time.Since(t0)
+		})
+		o.rethrow()
+		if !o.Returned {
+			// v and el belong to the abandoned goroutine from here on
+			atomic.AddInt32(&stallsSeen, 1)
+			c.Inconclusive(caseID, fmt.Sprintf("GetTimeout(%d) (%s) did not return within the watchdog %v; goroutine abandoned", t, variant, watchdog))
+			abandonSection(c, section, caseID+": GetTimeout did not return")
+			return
+		}
 		detail := map[string]interface{}{"type": T, "variant": variant, "timeout_ms": t, "elapsed_ns": el.Nanoseconds(), "returned": fmt.Sprint(v)}
 		limit := time.Duration(t)*time.Millisecond - time.Millisecond
 		switch {
-		case v == nil && variant == "non-empty":
+		case v == nil && (variant == "non-empty" || variant == "after-clear"):
 			c.Fail(T+".GetTimeout:wrong-element", "GetTimeout on a non-empty queue returned nil", detail)
 		case v == nil:
 			if el < limit {
@@ -61,7 +87,12 @@ func timedCase(c *vlib.Ctx, kind int, i int, r *vlib.Rand) {
 			c.Count("timed_element_returns", 1)
 		}
 		if prodDone != nil {
-			<-prodDone
+			if !waitDone(prodDone) {
+				atomic.AddInt32(&stallsSeen, 1)
+				c.Inconclusive(caseID, fmt.Sprintf("the late producer's Put did not return within the watchdog %v", watchdog))
+				abandonSection(c, section, caseID+": Put did not return")
+				return
+			}
 			if v == nil {
 				if got := q.getNoWait(); got != interface{}(id) {
 					c.Fail(T+":conservation", fmt.Sprintf("element put during an expired GetTimeout is not in the queue afterwards (got %v)", got), detail)
